@@ -11,7 +11,8 @@ LEVEL_TEXT = ("Generated programs of 1-6 producer threads (post, timers with pas
               "set_io_event / cancel_io_events on socket pairs whose readiness other operations create, deadline_timer and stream_socket "
               "operations carried onto the loop thread, throwing handlers, stop racing with posts) run against one io_service per "
               "reactor {select, poll, epoll}; every handler must be invoked exactly once on the loop thread, with success only if its event "
-              "happened (timers: not before the deadline) and with canceled only if a matching cancel was issued. Pool programs: at most once, "
+              "happened (timers: not before the deadline) and with canceled only if a cancel call had not returned before it was armed (descriptor operations take "
+              "effect in call order; a cancel must deliver every handler registered before it). Pool programs: at most once, "
               "exactly once unless cancel() returned true, throwing jobs keep the workers alive.")
 LEVEL_NOTE = ("Thread schedules are sampled by the OS scheduler with generated noise, not enumerated; data races are only seen when TSan "
               "observes both accesses. Liveness is decided by a quiescence argument (loop blocked indefinitely, nothing ready, all other "
@@ -20,7 +21,8 @@ DESIGN_REF = "3/C17"
 RULE = ("case = (reactor, final mode drain|stop-race, socket pairs, per-producer operation lists). Non-trivial: the program contains a cancel "
         "(timer, descriptor, deadline_timer, stream) or two producers touch the same descriptor or stop races with the producers; pool: more "
         "than one poster, a cancel, a throwing job or stop-race. Distinct = hash of the encoded case. Classes loop.* / pool.* count what "
-        "actually happened at run time (fired / canceled / fired despite cancel / cancel after fire / armed inside a cancel window ...).")
+        "actually happened at run time (fired / canceled / fired despite cancel / cancel after fire / armed during or after a cancel call / "
+        "re-armed over a cancelled outstanding handler / cancel followed by a delivery check ...).")
 HERE = verif.VERIF
 KNOWN_SIGS = ["io:deferred-cancel-hits-later-registration", "io:cancel-misses-queued-registration"]
 REACTORS = {1: "select", 2: "poll", 3: "epoll"}
@@ -39,39 +41,34 @@ def include_known():
 
 
 def budget(tier):
-    # (loop cases per tsan unit, tsan shards per reactor, loop cases per asan unit, asan shards, pool cases per unit, pool tsan shards)
-    return dict(lt=1000, lts=2, la=1200, las=1, pc=1200, pts=2) if tier == "quick" else dict(lt=20000, lts=3, la=20000, las=1, pc=20000, pts=2)
+    # cases per unit: lt = loop/tsan (one unit per reactor), la = loop/asan (reactor drawn per case), pt / pa = pool tsan / asan; sh = shards of each
+    return dict(lt=3000, la=4500, pt=3000, pa=4000, sh=1) if tier == "quick" else dict(lt=24000, la=30000, pt=30000, pa=40000, sh=2)
 
 
 def units(bins, tier, seed):
     b = budget(tier)
     us = []
     i = 0
-    for r, rn in REACTORS.items():
-        for k in range(b["lts"]):
+    for k in range(b["sh"]):
+        for r, rn in REACTORS.items():
             us.append(Unit("c17_sched_tsan.loop.%s%d" % (rn, k), [bins["c17_sched_tsan"], "--only", "loop"],
-                           env={"C17_REACTOR": r, "RC_PARAMS": rc_params(seed * 1000 + i, b["lt"], 100)}, group="loop-tsan-" + rn, timeout=3600)); i += 1
-        for k in range(b["las"]):
-            us.append(Unit("c17_sched_asan.loop.%s%d" % (rn, k), [bins["c17_sched_asan"], "--only", "loop"],
-                           env={"C17_REACTOR": r, "RC_PARAMS": rc_params(seed * 1000 + i, b["la"], 100)}, group="loop-asan-" + rn, timeout=3600)); i += 1
-    for k in range(b["pts"]):
+                           env={"C17_REACTOR": r, "RC_PARAMS": rc_params(seed * 1000 + i, b["lt"], 100)}, group="loop-tsan-" + rn, timeout=1500 if tier == "quick" else 5400)); i += 1
+        us.append(Unit("c17_sched_asan.loop.any%d" % k, [bins["c17_sched_asan"], "--only", "loop"],
+                       env={"C17_REACTOR": 0, "RC_PARAMS": rc_params(seed * 1000 + i, b["la"], 100), "VERIF_REGRESS": 1 if k == 0 else 0}, group="loop-asan", timeout=1500 if tier == "quick" else 5400)); i += 1
         us.append(Unit("c17_sched_tsan.pool.%d" % k, [bins["c17_sched_tsan"], "--only", "pool"],
-                       env={"RC_PARAMS": rc_params(seed * 1000 + i, b["pc"], 100)}, group="pool-tsan", timeout=3600)); i += 1
-    us.append(Unit("c17_sched_asan.pool.0", [bins["c17_sched_asan"], "--only", "pool"],
-                   env={"RC_PARAMS": rc_params(seed * 1000 + i, b["pc"], 100)}, group="pool-asan", timeout=3600))
-    if include_known():
+                       env={"RC_PARAMS": rc_params(seed * 1000 + i, b["pt"], 100)}, group="pool-tsan", timeout=1500 if tier == "quick" else 5400)); i += 1
+        us.append(Unit("c17_sched_asan.pool.%d" % k, [bins["c17_sched_asan"], "--only", "pool"],
+                       env={"RC_PARAMS": rc_params(seed * 1000 + i, b["pa"], 100)}, group="pool-asan", timeout=1500 if tier == "quick" else 5400)); i += 1
+    if include_known():    # all reactors x {re-arm after cancel, cancel after queued arm, number re-used via dup2, via close + socketpair}
         us.append(Unit("c17_sched_asan.fdops", [bins["c17_sched_asan"]], env={"C17_MODE": "fdops"}, group="fdops", timeout=1800))
     return us
 
 
 def floor(tier):
     b = budget(tier)
-    f = {}
+    f = {"loop-asan": b["la"] * b["sh"], "pool-tsan": b["pt"] * b["sh"], "pool-asan": b["pa"] * b["sh"]}
     for rn in REACTORS.values():
-        f["loop-tsan-" + rn] = b["lt"] * b["lts"]
-        f["loop-asan-" + rn] = b["la"] * b["las"]
-    f["pool-tsan"] = b["pc"] * b["pts"]
-    f["pool-asan"] = b["pc"]
+        f["loop-tsan-" + rn] = b["lt"] * b["sh"]
     return f
 
 
@@ -90,6 +87,8 @@ def replay(path):
 IOS = "booster/lib/aio/src/io_service.cpp"
 TP = "src/thread_pool.cpp"
 MUTATIONS = [
+    # reverts fix b2c5482: a descriptor operation is executed directly although earlier ones are still queued
+    dict(name="fd-ops-fifo-regression", edits=[(IOS, "if(polling_ || !reactor_.get() || deferred_fd_ops_ > 0) {", "if(polling_ || !reactor_.get()) {")]),
     # S(i): cancel_timer_event leaves the (now handler-less) registration in the timer table
     dict(name="timer-cancel-keeps-registration", edits=[(IOS, "\t\ttimer_events_.erase(evptr);\n\t\ttimer_events_index_[event_id]=timer_events_.end();\n\n\t\tif(polling_)", "\n\t\tif(polling_)")]),
     # S(ii): the ready read handler is copied, not moved out of the descriptor table -> delivered again by the next cancel / event
